@@ -180,7 +180,7 @@ def alias_values(model, ctx):
 def decide(ob, ctx, path):
     """Return a result dict for the obligation on this path."""
     base = _base(ctx, path)
-    phi = ob.phi if ob.phi is not None else ctx.phi
+    phi = ob.phi if ob.phi is not None else getattr(ctx, "phi", [])
     res = {"id": ob.id, "kind": ob.kind, "path": path.tag(), "path_cond": path.describe()}
     t0 = time.perf_counter()
     if ob.kind == "sound":
